@@ -2,6 +2,7 @@ CONSTANTS
   MaxN = 5
   Stratum = "dedup"
   PathsMaxN = 5
+  DeferMaxN = 4
 SPECIFICATION GenSpec
 CONSTRAINT GenConstraint
 CHECK_DEADLOCK FALSE
